@@ -116,3 +116,10 @@ pub open spec fn lex_acc(cs: Cs, end: usize, acc: Seq<(usize, Token)>) -> Option
         }
     }
 }
+
+// T2: str::char_indices yields each character with its byte offset (strictly increasing, on character boundaries,
+// below len()); str::len() is the byte length
+pub uninterp spec fn indexed(expr: Seq<char>) -> Cs;
+pub uninterp spec fn byte_len(s: Seq<char>) -> usize;
+/// the token sequence of an expression text, None when it violates the lexical rules
+pub open spec fn lex(expr: Seq<char>) -> Option<Seq<(usize, Token)>> { lex_acc(indexed(expr), byte_len(expr), Seq::empty()) }
